@@ -17,6 +17,7 @@ import (
 	"math"
 	"strconv"
 	"strings"
+	"time"
 
 	goat "github.com/philhassey/goatlang"
 )
@@ -554,8 +555,81 @@ func (c *Ctx) c14TypeBitsWitness() {
 	c.Rep.Violate(Violation{Kind: "oracle", Cut: "go-fmt", Input: src, Impl: out, Oracle: want})
 }
 
+// c14Cyclic: slices that a host made contain themselves or each other (Set does not check element
+// types); String() must terminate and agree with the model's path-cut rendering. A regression here
+// overflows the Go stack, which no recover can catch, so each case runs under a watchdog only to
+// turn a hang into a report; a stack overflow kills the harness and the check reports the broken run.
+func (c *Ctx) c14Cyclic(n int) (lines, impl []string) {
+	r := c.RNG
+	for it := 0; it < n; it++ {
+		k := 1 + r.Intn(4)
+		pool := make([]goat.Value, k)
+		shape := make([][]string, k)
+		for i := range pool {
+			ln := 1 + r.Intn(3)
+			vals := make([]goat.Value, ln)
+			for j := range vals {
+				x := r.Intn(10)
+				vals[j] = goat.Int(x)
+				shape[i] = append(shape[i], fmt.Sprintf("i%d", x))
+			}
+			pool[i] = goat.NewSlice(goat.TypeInt32, vals)
+		}
+		for e := r.Intn(2*k + 1); e > 0; e-- {
+			i, t := r.Intn(k), r.Intn(k)
+			j := r.Intn(len(shape[i]))
+			pool[i].Set(goat.Int(j), pool[t])
+			shape[i][j] = fmt.Sprintf("c%d", t)
+			if i == t {
+				c.Rep.Count("cyclic-self-loop")
+			}
+		}
+		top := r.Intn(k)
+		var secs []string
+		for _, sh := range shape {
+			secs = append(secs, strings.Join(sh, " "))
+		}
+		line := fmt.Sprintf("print cyc %d | %s |", top, strings.Join(secs, " | "))
+		if it%50 == 0 || c.Tier == "quick" {
+			c.Pending(map[string]any{"cyclic_containers": line})
+		}
+		done := make(chan string, 1)
+		go func() { done <- pool[top].String() }()
+		select {
+		case s := <-done:
+			lines, impl = append(lines, line), append(impl, hx(s))
+		case <-time.After(20 * time.Second):
+			c.Rep.Violate(Violation{Kind: "crash", Cut: "render", Input: line, Impl: "String() did not return within 20s", Oracle: "terminates"})
+			return
+		}
+		c.Rep.Count("cyclic-host-containers")
+		c.Rep.Seen(line, true)
+	}
+	c.PendingDone()
+	return
+}
+
 func runC14(c *Ctx) error {
 	c.c14TypeBitsWitness()
+	{
+		nc := 300
+		if c.Thorough() {
+			nc = 30000
+		}
+		cl, ci := c.c14Cyclic(nc)
+		if c.Model != nil {
+			ans, err := c.Model.AskAll(cl)
+			if err != nil {
+				return err
+			}
+			for i, a := range ans {
+				c.Rep.Corr["render"]++
+				if a != ci[i] {
+					c.Rep.Violate(Violation{Kind: "correspondence", Cut: "render", Input: cl[i], Impl: ci[i], Model: a})
+				}
+			}
+		}
+	}
 	c.Rep.Rule = "scalar: booleans, int32 / uint32 / int8 / uint8 boundary and random values, float64 from a boundary table (±0, 1e20/1e21, 1e-4/1e-5, max, smallest subnormal, NaN, ±Inf), random bit patterns, integral, decimal and power-of-ten values, strings of every UTF-8 class; render: programs that build values of random types (scalars of every kind, slices and single-entry or empty maps nested to depth 5, references) and 1..4 objects of a struct type with scalar, container, pointer, slice-of-pointer and map-of-pointer fields linked at random (self-loops, cycles), printed with println / fmt.Println (1..3 operands), fmt.Print and fmt.Sprint (one operand) and through a variable; half of the programs contain no references and are also run by the Go toolchain; distinct = distinct value / program; non-trivial = program with more than 3 features"
 	ns, np := 3000, 200
 	if c.Thorough() {
